@@ -43,6 +43,7 @@ struct FPlan
     int pre_bytes = 0; // >0: the log file exists before the first start and holds that many bytes of binary-looking data
     int pre_age_days = 0; // ... last written that many days before the run
     int obstacle = 0; // >0: a directory named like rotated file <index> of the first day exists (C05, C06, C10)
+    bool decoy = false; // every formatted record first passes another rotating sink with another formatted text (C05, C07)
     bool obstacle_gz = false; // ... like the compressed form of that rotated file (its compression cannot be created)
     std::string sibling; // base name of a second rotating sink working in the same directory (C06), or empty
     int start_ms_of_day = 12 * 3600 * 1000;
